@@ -49,11 +49,13 @@ type OptDef struct {
 	Desc      string
 	ArgName   string
 	UseVar    bool
+	PreSet    bool // *Var forms of map and []string: the target already holds entries (they are the default)
 }
 
 type CmdDef struct {
 	Name         string
 	Desc         string
+	SelfName     string // non-empty: Self(SelfName, Desc) is called on the command (display name differs from the name it is declared and selected by)
 	Opts         []OptDef
 	LateOpts     []OptDef // declared after the commands of this level
 	Cmds         []*CmdDef
@@ -72,7 +74,8 @@ type ProgDef struct {
 	Root      *CmdDef
 	Mode      int
 	MapLower  bool
-	ModeFirst int // >0: SetMode(ModeFirst-1) is called before the final SetMode(Mode) (a setter called twice)
+	HelpEarly bool // HelpCommand is declared before the last command of the program is created
+	ModeFirst int  // >0: SetMode(ModeFirst-1) is called before the final SetMode(Mode) (a setter called twice)
 	Help      bool
 	HelpName  string
 	HelpAlias []string
@@ -302,6 +305,9 @@ func (b *Built) defineOpt(g *getoptions.GetOpt, path string, o *OptDef) {
 	case KStrRep:
 		if o.UseVar {
 			var v []string
+			if o.PreSet {
+				v = []string{"pre"}
+			}
 			g.StringSliceVar(&v, o.Name, o.Min, o.Max, fns...)
 			b.Ptrs[key] = &v
 		} else {
@@ -326,6 +332,9 @@ func (b *Built) defineOpt(g *getoptions.GetOpt, path string, o *OptDef) {
 	case KMap:
 		if o.UseVar {
 			var v map[string]string
+			if o.PreSet {
+				v = map[string]string{"pre": "set"}
+			}
 			g.StringMapVar(&v, o.Name, o.Min, o.Max, fns...)
 			b.Ptrs[key] = &v
 		} else {
@@ -351,6 +360,7 @@ func clonePath(p []string) []string { return append([]string{}, p...) }
 
 // Linearise - the definition as the sequence of API calls Build makes.
 func Linearise(p *ProgDef) []Op {
+	helpEarly := p.Help && p.HelpEarly && len(p.Root.Cmds) > 0
 	ops := []Op{}
 	fnID := 0
 	var cmd func(path []string, c *CmdDef)
@@ -378,6 +388,9 @@ func Linearise(p *ProgDef) []Op {
 		if len(c.SuggestFns) > 0 {
 			ops = append(ops, Op{Kind: "argfns", Path: clonePath(path), Ints: c.SuggestFns})
 		}
+		if c.SelfName != "" && len(path) > 0 {
+			ops = append(ops, Op{Kind: "self", Path: clonePath(path), Name: c.SelfName, Desc: c.Desc})
+		}
 		for _, a := range c.SynArgs {
 			ops = append(ops, Op{Kind: "synarg", Path: clonePath(path), Name: a[0], Desc: a[1]})
 		}
@@ -388,7 +401,10 @@ func Linearise(p *ProgDef) []Op {
 		for i := range c.Opts {
 			ops = append(ops, Op{Kind: "opt", Path: clonePath(path), Opt: &c.Opts[i]})
 		}
-		for _, sub := range c.Cmds {
+		for si, sub := range c.Cmds {
+			if helpEarly && c == p.Root && si == len(c.Cmds)-1 {
+				ops = append(ops, Op{Kind: "help", Name: p.HelpName, List: p.HelpAlias})
+			}
 			ops = append(ops, Op{Kind: "newcmd", Path: clonePath(path), Name: sub.Name, Desc: sub.Desc})
 			cmd(append(clonePath(path), sub.Name), sub)
 		}
@@ -400,7 +416,7 @@ func Linearise(p *ProgDef) []Op {
 		}
 	}
 	cmd([]string{}, p.Root)
-	if p.Help {
+	if p.Help && !helpEarly {
 		ops = append(ops, Op{Kind: "help", Name: p.HelpName, List: p.HelpAlias})
 	}
 	return ops
@@ -470,6 +486,8 @@ func BuildOps(p *ProgDef, ops []Op) (b *Built, err error) {
 			for _, id := range op.Ints {
 				h.ArgCompletionsFns(argFn(id))
 			}
+		case "self":
+			h.Self(op.Name, op.Desc)
 		case "synarg":
 			h.HelpSynopsisArg(op.Name, op.Desc)
 		case "setfn":
